@@ -30,16 +30,24 @@ def all_builtin_calls(rng):
     Lean; here: each function applied to each combination of representative typed arguments)"""
     from odata_query import grammar
     g = gens_typed.TypedGen(rng)
-    reps = {t: [g.gen(t, 0), g.gen(t, 1)] for t in TYPES}
-    reps["geo"] = [ast.Geography("POINT(1 2)"), ast.Identifier("geo1")]
-    reps["duration"] = [ast.Duration("P1D"), ast.Identifier("du1")]
+    # per kind: a LITERAL (its type is known to inference), a field (unknown), and a computed term (a call / operator of that type)
+    lit = {"bool": ast.Boolean("true"), "int": ast.Integer("5"), "float": ast.Float("2.5"), "str": ast.String("ab"), "date": ast.Date("2020-01-01"),
+           "datetime": ast.DateTime("2020-01-01T10:00:00Z"), "time": ast.Time("12:00:00"), "coll": ast.List([ast.Integer("1"), ast.Integer("2")])}
+    fld = {"bool": "b1", "int": "i1", "float": "f1", "str": "s1", "date": "d1", "datetime": "dt1", "time": "tm1", "coll": "c1"}
+    comp = {"bool": gens_typed.call("contains", ast.String("ab"), ast.String("a")), "int": gens_typed.call("length", ast.String("abc")),
+            "float": gens_typed.call("round", ast.Float("1.5")), "str": gens_typed.call("tolower", ast.String("AB")),
+            "date": gens_typed.call("date", ast.DateTime("2020-01-01T10:00:00Z")), "datetime": gens_typed.call("now"),
+            "time": gens_typed.call("time", ast.DateTime("2020-01-01T10:00:00Z")), "coll": gens_typed.call("concat", ast.List([ast.Integer("1")]), ast.List([ast.Integer("2")]))}
+    reps = {t: [lit[t], ast.Identifier(fld[t]), comp[t]] for t in TYPES}
+    reps["geo"] = [ast.Geography("POINT(1 2)"), ast.Identifier("geo1"), ast.Identifier("geo2")]
+    reps["duration"] = [ast.Duration("P1D"), ast.Identifier("du1"), ast.Identifier("du2")]
     out = []
     import itertools
     for name, ar in grammar.ODATA_FUNCTIONS.items():
         lo, hi = (ar, ar) if isinstance(ar, int) else ar
         for n in range(lo, hi + 1):
             for tys in itertools.product(list(reps.keys()), repeat=n):
-                for pick in range(2):
+                for pick in range(3):
                     args = [reps[t][pick] for t in tys]
                     out.append(gens_typed.call(name, *args))
     return out
